@@ -9,6 +9,7 @@ package corerad
 import (
 	"encoding/json"
 	"fmt"
+	"pgregory.net/rapid"
 	"strings"
 	"sync"
 	"testing"
@@ -39,6 +40,9 @@ func c01AdvProp(t *testing.T, k *verifkit.Kit) func(c c17Case) error {
 		st.MAC = vkIfiMAC
 		_, pan := bubble(t, func() {
 			w = newSimWorld(nil)
+			if c.MACMode != 0 {
+				w.macFor = c.macOf
+			}
 			var mu sync.Mutex
 			for i := range cfg.Interfaces {
 				ifi := &cfg.Interfaces[i]
@@ -186,6 +190,11 @@ func c01AdvProp(t *testing.T, k *verifkit.Kit) func(c c17Case) error {
 			}
 			s2 := stFor(base, idxOf[ri.Name])
 			s2.MAC = vkMACFor(ri.Name)
+			if c.MACMode != 0 {
+				w.mu.Lock()
+				s2.MAC = w.connMAC[x.Conn] // what the interface reported when this connection was dialled
+				w.mu.Unlock()
+			}
 			s2.Fwd, s2.NowNS = f, int64(x.Start)
 			want, wantErr := expectRA(ri, s2, epoch)
 			if wantErr {
@@ -221,5 +230,16 @@ func TestVerif_C01adv(t *testing.T) {
 		}
 		return verifkit.Decode(raw, prop)
 	})
-	verifkit.Rapid(k, t, "advertiser-transmissions", k.N(1200, 150000), c17Gen, prop)
+	gen := func(t *rapid.T) c17Case {
+		c := c17Gen(t)
+		if rapid.IntRange(0, 2).Draw(t, "macmode") == 0 {
+			// the interface is re-created between two dials: another hardware address, none, or one that is not 48 bits long
+			c.MACMode = rapid.IntRange(1, 3).Draw(t, "macmodev")
+			if len(c.Links) == 0 && c.StopNS > int64(2*time.Second) {
+				c.Links = []int64{c.StopNS / 2}
+			}
+		}
+		return c
+	}
+	verifkit.Rapid(k, t, "advertiser-transmissions", k.N(1200, 150000), gen, prop)
 }
